@@ -17,7 +17,16 @@ def first_or_default_async_(
             observer: abc.ObserverBase[_T],
             scheduler: abc.SchedulerBase | None = None,
         ):
+            found = False
+
             def on_next(x: _T):
+                nonlocal found
+                if found:
+                    # an element that arrives while the first one is being
+                    # delivered (re-entrant on_next)
+                    return
+
+                found = True
                 observer.on_next(x)
                 observer.on_completed()
 
